@@ -284,13 +284,14 @@ stat_make_tree(nni_stat_item *item, nni_stat **sp)
 	return (0);
 }
 
-static void
+static int
 stat_update(nni_stat *stat, nni_mtx **mtxp)
 {
 	const nni_stat_item *item = stat->s_item;
 	const nni_stat_info *info = item->si_info;
 	char                *old;
 	char                *str;
+	int                  rv = 0;
 
 	if (info->si_lock) {
 		NNI_ASSERT(item->si_mtx != NULL);
@@ -332,7 +333,9 @@ stat_update(nni_stat *stat, nni_mtx **mtxp)
 		if ((info->si_alloc) && (str != NULL) &&
 		    ((old == NULL) || (strcmp(str, old) != 0))) {
 
-			stat->s_val.sv_string = nni_strdup(str);
+			if ((stat->s_val.sv_string = nni_strdup(str)) == NULL) {
+				rv = NNG_ENOMEM;
+			}
 			nni_strfree(old);
 
 		} else if (info->si_alloc) {
@@ -346,16 +349,23 @@ stat_update(nni_stat *stat, nni_mtx **mtxp)
 		break;
 	}
 	stat->s_timestamp = nni_clock();
+	return (rv);
 }
 
-static void
+static int
 stat_update_tree(nni_stat *stat, nni_mtx **mtxp)
 {
 	nni_stat *child;
-	stat_update(stat, mtxp);
-	NNI_LIST_FOREACH (&stat->s_children, child) {
-		stat_update_tree(child, mtxp);
+	int       rv;
+	if ((rv = stat_update(stat, mtxp)) != 0) {
+		return (rv);
 	}
+	NNI_LIST_FOREACH (&stat->s_children, child) {
+		if ((rv = stat_update_tree(child, mtxp)) != 0) {
+			return (rv);
+		}
+	}
+	return (0);
 }
 
 int
@@ -373,11 +383,15 @@ nni_stat_snapshot(nni_stat **statp, nni_stat_item *item)
 		nni_mtx_unlock(&stats_lock);
 		return (rv);
 	}
-	stat_update_tree(stat, &mtx);
+	rv = stat_update_tree(stat, &mtx);
 	if (mtx != NULL) {
 		nni_mtx_unlock(mtx);
 	}
 	nni_mtx_unlock(&stats_lock);
+	if (rv != 0) {
+		nng_stats_free(stat);
+		return (rv);
+	}
 	*statp = stat;
 	return (0);
 }
